@@ -155,19 +155,13 @@ func halfPipe(src net.Conn, dst net.Conn,
 	buf := make([]byte, 32*1024)
 	for {
 		nr, er := src.Read(buf)
-		if er != nil {
-			if nr > len(buf) {
-				log.Errorf("unexpected read len error - up:%t (%dB): %s", isUpload, nr, er)
-			}
-			if e := generalizeErr(er); e != nil {
-				if isUpload {
-					stats.ClientConnErr = e.Error()
-				} else {
-					stats.CovertConnErr = e.Error()
-				}
-			}
-			break
+		if er != nil && nr > len(buf) {
+			log.Errorf("unexpected read len error - up:%t (%dB): %s", isUpload, nr, er)
 		}
+
+		// A Read may return data together with an error (io.Reader: "callers should always
+		// process the n > 0 bytes returned before considering the error"), so forward what was
+		// read before acting on er.
 		if nr > 0 {
 			if nr > len(buf) && er == nil {
 				log.Errorf("unexpected read len error - up:%t (%dB)", isUpload, nr)
@@ -199,6 +193,17 @@ func halfPipe(src net.Conn, dst net.Conn,
 				break
 			}
 
+		}
+
+		if er != nil {
+			if e := generalizeErr(er); e != nil {
+				if isUpload {
+					stats.ClientConnErr = e.Error()
+				} else {
+					stats.CovertConnErr = e.Error()
+				}
+			}
+			break
 		}
 
 		// refresh stall timeout - set both because it only happens on write so if connection is
